@@ -598,6 +598,11 @@ class XPathToken(Token[ta.XPathTokenType]):
                         type(op2).make(op1, parser=self.parser), op2, context
                     )
                     return
+                elif isinstance(op2, (int, float, decimal.Decimal)) and not isinstance(op2, bool):
+                    # Both values are compared as xs:double
+                    xsd_version = self.parser.xsd_version
+                    yield get_double(op1.value, xsd_version), get_double(op2, xsd_version)
+                    return
             case AbstractDateTime() | Duration():
                 if isinstance(op2, UntypedAtomic):
                     op2 = type(op1).make(op2, parser=self.parser)
@@ -607,23 +612,32 @@ class XPathToken(Token[ta.XPathTokenType]):
             case bool():
                 if not isinstance(op2, (bool, UntypedAtomic)):
                     raise TypeError(msg.format(type(op1), type(op2)))
-            case Integer():
+            case Integer() | float() | decimal.Decimal():
                 if isinstance(op2, (str, AbstractQName, AnyURI, bool)):
                     raise TypeError(msg.format(type(op1), type(op2)))
-            case float():
-                if isinstance(op2, decimal.Decimal):
-                    yield op1, float(op2)
+                elif isinstance(op2, UntypedAtomic):
+                    # Both values are compared as xs:double
+                    xsd_version = self.parser.xsd_version
+                    yield get_double(op1, xsd_version), get_double(op2.value, xsd_version)
                     return
-                elif isinstance(op2, (str, AbstractQName, AnyURI, bool)):
-                    raise TypeError(msg.format(type(op1), type(op2)))
-            case decimal.Decimal():
-                if isinstance(op2, float):
-                    yield float(op1), op2
+                elif isinstance(op1, float) and isinstance(op2, (int, decimal.Decimal)):
+                    yield op1, get_double(op2)
                     return
-                elif isinstance(op2, (str, AbstractQName, AnyURI, bool)):
-                    raise TypeError(msg.format(type(op1), type(op2)))
+                elif isinstance(op2, float) and isinstance(op1, (int, decimal.Decimal)):
+                    yield get_double(op1), op2
+                    return
             case AbstractQName():
                 if not isinstance(op2, (AbstractQName, UntypedAtomic)):
+                    raise TypeError(msg.format(type(op1), type(op2)))
+
+        if self.symbol in ('<', '<=', '>', '>='):
+            # Gregorian types and generic durations have no order relation
+            for value in (op1, op2):
+                if isinstance(value, Duration):
+                    if type(op1) is not type(op2) or type(value) is Duration:
+                        raise TypeError(msg.format(type(op1), type(op2)))
+                elif isinstance(value, AbstractDateTime) and \
+                        not isinstance(value, (DateTime, Date, Time)):
                     raise TypeError(msg.format(type(op1), type(op2)))
 
         # Values of different primitive types are not comparable
